@@ -4,6 +4,7 @@ import (
 	"fmt"
 	"github.com/metrico/qryn/reader/logql/logql_transpiler_v2/shared"
 	sql "github.com/metrico/qryn/reader/utils/sql_select"
+	"strconv"
 	"strings"
 )
 
@@ -26,7 +27,8 @@ func (c ComplexAndPlanner) Process(ctx *shared.PlannerContext) (sql.ISelect, err
 			With(with).
 			Select(sql.NewSimpleCol("trace_id", "trace_id"),
 				sql.NewSimpleCol("_span_id", "span_id"),
-				sql.NewSimpleCol("max_timestamp_ns", "max_timestamp_ns")).
+				sql.NewSimpleCol("max_timestamp_ns", "max_timestamp_ns"),
+				sql.NewSimpleCol(strconv.Itoa(i), "_op")).
 			From(sql.NewWithRef(with)).
 			Join(sql.NewJoin("array", sql.NewSimpleCol(with.GetAlias()+".span_id", "_span_id"), nil))
 	}
@@ -34,10 +36,12 @@ func (c ComplexAndPlanner) Process(ctx *shared.PlannerContext) (sql.ISelect, err
 	return sql.NewSelect().
 		Select(sql.NewSimpleCol("trace_id", "trace_id"),
 			sql.NewSimpleCol("groupUniqArray(100)(span_id)", "span_id")).
-		From(sql.NewCol(&intersect{
+		From(sql.NewCol(&union{
 			selects: selects,
 		}, c.Prefix+"a")).
 		GroupBy(sql.NewRawObject("trace_id")).
+		// a trace passes && when every operand contributed rows to it
+		AndHaving(sql.Eq(sql.NewRawObject("uniqExact(_op)"), sql.NewIntVal(int64(len(selects))))).
 		OrderBy(sql.NewOrderBy(sql.NewRawObject(fmt.Sprintf("max(%sa.max_timestamp_ns)", c.Prefix)),
 			sql.ORDER_BY_DIRECTION_DESC)), nil
 }
